@@ -30,6 +30,9 @@ func runC14(r *core.Run) {
 	var maxAlloc uint64
 	var worst string
 	for i := range obs {
+		if obs[i].Skipped {
+			continue // not executed: the run had already met many calls that do not return
+		}
 		o, op, c := &obs[i], &ops[i], &cases[i]
 		r.Cases++
 		n := len(c.in.Data)
